@@ -171,3 +171,4 @@ PROP = Prop(
                  'gmsh 2.2 is written in binary: meshio 5.3 cannot re-read its own ASCII ElementData under numpy 2 (third-party defect)'],
     subs=[Sub('roundtrip', body, strategy=case, quick=700, thorough=12000)],
     design_ref='DESIGN.md section 6, C17')
+PROP.rule += ('. Added in round 2: named boundaries with an empty selection (the name must survive).')
